@@ -178,7 +178,7 @@ def gen_plan(rng, opts, spec, faults, idx):
     return plan, placed
 
 
-SAFE_CALLBACKS = ['copy', 'copy-solve', 'deepcopy', 'eval', 'export', 'reindex', 'iter', 'bad_call', 'bad_call', 'label']
+SAFE_CALLBACKS = ['copy', 'copy-solve', 'deepcopy', 'eval', 'export', 'reindex', 'iter', 'bad_call', 'bad_call', 'label', 'rebind', 'rebind', 'rebind', 'label_probe', 'forward']
 
 
 def gen_callbacks(rng, spec, opts, tn=None, kinds=SAFE_CALLBACKS):
@@ -203,6 +203,13 @@ def gen_callbacks(rng, spec, opts, tn=None, kinds=SAFE_CALLBACKS):
             cb.update(what='nested_solve', tn2=rng.choice(others))
         elif what == 'label':
             cb.update(what='label', pos=rng.randrange(max(1, n)))
+        elif what == 'rebind':
+            pool = spec['endo'] + spec['check'] + ['status', 'iterations'] + spec['exo']
+            cb.update(what='rebind', names=rng.sample(pool, rng.randint(1, min(3, len(pool)))), via=rng.choice(['attr', 'attr', 'item', 'replace_values']))
+        elif what == 'label_probe':
+            cb.update(what='label_probe', v=rng.randrange(4), a=rng.randrange(max(1, n)))
+        elif what == 'nested_prev':
+            cb.update(what='nested_solve', rel=-1)
         else:
             cb['what'] = what
         out.append(cb)
@@ -216,10 +223,13 @@ def neutralise_callbacks(plan, snap, post, ctx=None, tn=None):
         for cb in (p_ or {}).get('cb', ()):
             if ctx is not None:
                 ctx.probe('callback:' + cb['what'] + ('+solve' if cb.get('solve') else '') + ':' + cb['hook'])
-            if cb['what'] == 'nested_solve' and cb['tn2'] != tn:
+            if cb['what'] == 'nested_solve':
+                tn2 = cb.get('tn2') if cb.get('rel') is None else (None if tn is None else tn + cb['rel'])
+                if tn2 is None or tn2 == tn:
+                    continue
                 for nm in post:
-                    if nm in snap and 0 <= cb['tn2'] < len(post[nm]):
-                        post[nm][cb['tn2']] = snap[nm][cb['tn2']]
+                    if nm in snap and 0 <= tn2 < len(post[nm]):
+                        post[nm][tn2] = snap[nm][tn2]
             if cb['what'] == 'add_variable':
                 for nm in [x for x in post if x.startswith('CB') and x not in snap]:
                     post.pop(nm)
@@ -615,6 +625,9 @@ def do_solve(m, span, spec, op, endo, check, exo, ctx, step):
     neutralise_callbacks(op.get('plan'), snap, post, ctx, tn)
     for what_, res_ in ctl.callbacks:
         ctx.fault('callback-into-library') if res_ == 'ok' else ctx.fault('callback-into-library-raised')
+        if what_ == 'label_probe':
+            # (C10: label access addresses the labelled periods - also from inside a hook, whatever is being solved)
+            ctx.check('C10', 'label-access-from-inside-a-hook', not res_.startswith('MISMATCH'), {'result': res_, 't': t, 'span': spec['span']['type'], 'entry': op['op']})
     if op.get('trace'):
         # the tracer's own record is where a traced call writes by design (also the 'start' entry of a call that is
         # then rejected); the frame is about the model's series
@@ -650,6 +663,14 @@ def do_solve(m, span, spec, op, endo, check, exo, ctx, step):
         ctx.outcome(op['op'], 'KeyError-on-own-label')
         return call, {'end': 'label-rejected'}
     E = ref_solver.judge_single(call, lambda sig, ok, detail=None: ctx.check(prop, sig, ok, detail), ctx.probe)
+    for nc in ctl.nested_calls:
+        # a solve of another period made by a callback while this one was under way: a solve like any other
+        ncall = dict(call, opts=nc['opts'], t=nc['t'], snap=nc['snap'], post=nc['post'], log=nc['log'], raised=nc['raised'], outcome=nc['outcome'], endo_offset=list(m.endogenous), scripted=True)
+        if op.get('trace'):
+            ncall['snap'].pop('trace', None)
+            ncall['post'].pop('trace', None)
+        ctx.probe('nested-solve-judged')
+        ref_solver.judge_single(ncall, lambda sig, ok, detail=None: ctx.check(prop, 'nested/' + sig, ok, detail), None)
     count_faults(ctx, ctl.log, op['opts'])
     ctx.count('passes', sum(1 for r in ctl.log if r['hook'] == 'eval'))
     ctx.count('hook-calls', sum(1 for r in ctl.log if r['hook'] != 'eval'))
